@@ -178,8 +178,8 @@ def get_arg_defaults(task: "Task", args: tuple, kwargs: dict) -> dict:
 
     sig = task.signature
     for i, param in enumerate(sig.parameters.values()):
-        if i < len(args):
-            # User already specified this arg in args.
+        if i < len(args) and param.kind in (param.POSITIONAL_ONLY, param.POSITIONAL_OR_KEYWORD):
+            # User already specified this arg in args (keyword-only params are never positional).
             continue
 
         elif param.name in kwargs:
